@@ -3,6 +3,7 @@ module verifharness
 go 1.26.8
 
 require (
+	github.com/goccy/go-json v0.10.2
 	github.com/smartcontractkit/chainlink-automation v0.0.0
 	github.com/smartcontractkit/chainlink-common v0.3.0
 	github.com/smartcontractkit/libocr v0.0.0-20241007185508-adbe57025f12
@@ -14,7 +15,6 @@ require (
 	github.com/ethereum/go-ethereum v1.13.8 // indirect
 	github.com/go-logr/logr v1.4.2 // indirect
 	github.com/go-logr/stdr v1.2.2 // indirect
-	github.com/goccy/go-json v0.10.2 // indirect
 	github.com/golang/protobuf v1.5.4 // indirect
 	github.com/google/uuid v1.6.0 // indirect
 	github.com/holiman/uint256 v1.2.4 // indirect
